@@ -126,9 +126,15 @@ def run(ctx):
     # The binding (div) compares with the AS-BUILT model (Monitor_C19.cfg: DEV_* = TRUE).  Once a deviation is repaired
     # in /repo its DEV_ constant must be set to FALSE there; VERIF_C19_ASINTENDED=1 does that for all three for one run
     # (used to validate a candidate repair against the as-intended model).
-    if os.environ.get("VERIF_C19_ASINTENDED"):
+    asint = os.environ.get("VERIF_C19_ASINTENDED")      # "1" = all, or a comma list of DEV_ names without the prefix
+    if asint:
         mc = os.path.join(ctx.specdir, "Monitor_C19.cfg")
-        txt = open(mc).read().replace("= TRUE", "= FALSE")
+        txt = open(mc).read()
+        if asint == "1":
+            txt = txt.replace("= TRUE", "= FALSE")
+        else:
+            for name in asint.split(","):
+                txt = txt.replace("DEV_%s = TRUE" % name.strip(), "DEV_%s = FALSE" % name.strip())
         open(mc, "w").write(txt)
     vectors = vlib.read_ndjson(vec)
     r2, fails, divs = vlib.run_vector_monitor(ctx, "Monitor_C19", "c19_vectors.ndjson", timeout=2400)
